@@ -20,7 +20,7 @@ PROPS_MODULE = 'Props.C12'
 COQ_TARGETS = ['theories/Extract/ExtractC12.vo']
 REQUIRED_THEOREMS = ['C12_literal_grammar', 'C12_print', 'C12_print_placeable', 'C12_operands', 'C12_operands_beyond', 'C12_operands_total',
                      'C12_cldr_trailing_zeros', 'C12_number_opts', 'C12_number_opts_resolved', 'C12_numeric_key', 'C12_select',
-                     'C12_select_expression', 'C12_exact_key_first', 'C12_locale_partial', 'C12_select_literal']
+                     'C12_select_expression', 'C12_exact_key_first', 'C12_locale_partial', 'C12_select_literal', 'C12_option_keys_from_source']
 MODEL = 'c12'
 HARNESS_BINS = ['number_run']
 RELEASE_TOO = True
